@@ -42,8 +42,12 @@ def install(E, tty=(1, 0, 1), stdin_data=None):
             elif conv in 'diux':
                 bits = 64 if mod in ('l', 'll', 'z', 'j', 't') else 32
                 if is_sym(v):
-                    if conv != 'd' or spec: raise Unsupported('symbolic value in %%%s%s' % (spec, conv))
-                    out += [simp(z3.BitVec('fmtnum', 8))]          # opaque (only used in diagnostics)
+                    if conv == 'x' and spec == '02':
+                        b = simp(z3.Extract(7, 0, v))
+                        if E.feasible(st, z3.UGT(v, 255) if v.size() > 8 else z3.BoolVal(False)): raise Unsupported('symbolic %02x argument may exceed one byte')
+                        for nib in (z3.LShR(b, 4), b & 0xf): out.append(simp(z3.If(z3.ULT(nib, 10), nib + 0x30, nib + 0x57)))
+                    elif conv == 'd' and not spec: out += [z3.BitVec('fmtnum_%d' % E.fresh(), 8)]          # opaque (only used in diagnostics)
+                    else: raise Unsupported('symbolic value in %%%s%s' % (spec, conv))
                 else:
                     x = mask(v, bits)
                     if conv in 'di': x = sext(x, bits)
